@@ -24,6 +24,11 @@ StepTri(e) ==
        LET o == e.ols[i] IN
        Report(e.case, TriOutlineFails(o[2], e.lines, "tri_outline") \cup TriOutlineFails(o[3], e.lines, "tri_outline_pixels"),
               [v |-> e.v, al |-> o[1]])
+  /\ \A i \in 1..Len(e.fls) :
+       LET f == e.fls[i] IN
+       Report(e.case, TriStyledFillFails(f[3], e.ts[1], "tri_styled_fill") \cup TriStyledFillFails(f[4], e.ts[1], "tri_styled_fill_pixels")
+                      \cup (IF f[5] = 1 THEN {} ELSE {"tri_styled_fill_pixels_endless"}),
+              [v |-> e.v, al |-> f[1], variant |-> f[2], what |-> "styled_fill"])
   /\ DriftTri(e)
 StepPair(e) ==
   /\ e.ev = "pair"
